@@ -71,7 +71,8 @@ def print_string(s, rng=None):
 
 # ---------------------------------------------------------------------------
 
-def gen_matcher(rng, pools=None, hostile=0.3):
+def gen_matcher(rng, pools=None, hostile=0.3, hid=None):
+    hid = hostile if hid is None else hid
     pools = pools or {}
     k = rng.choice(["paragraph"] * 5 + ["run"] * 3 + ["table", "bold", "italic", "underline", "strikethrough", "all_caps", "small_caps",
                                                         "highlight", "comment_reference", "break"])
@@ -80,7 +81,7 @@ def gen_matcher(rng, pools=None, hostile=0.3):
         ids = pools.get(k + "_ids") or []
         names = pools.get(k + "_names") or []
         if rng.random() < 0.45:
-            m["sid"] = rng.choice(ids) if ids and rng.random() < 0.8 else ident(rng, hostile)
+            m["sid"] = rng.choice(ids) if ids and rng.random() < 0.8 else ident(rng, hid)
         if rng.random() < 0.45:
             v = rng.choice(names) if names and rng.random() < 0.8 else string(rng, hostile)
             kind = rng.choice(["eq", "prefix"])
@@ -101,31 +102,32 @@ def gen_matcher(rng, pools=None, hostile=0.3):
     return {"k": k}
 
 
-def gen_element(rng, hostile=0.3, allow_sep=True):
-    names = [rng.choice(["p", "div", "span", "h1", "h2", "li", "ul", "ol", "em", "strong", "code", "pre", "blockquote", "a", "section", "td", "br", "img", "hr"]) if rng.random() > hostile * 0.5 else ident(rng, hostile)]
+def gen_element(rng, hostile=0.3, allow_sep=True, hid=None):
+    hid = hostile if hid is None else hid
+    names = [rng.choice(["p", "div", "span", "h1", "h2", "li", "ul", "ol", "em", "strong", "code", "pre", "blockquote", "a", "section", "td", "br", "img", "hr"]) if rng.random() > hid * 0.5 else ident(rng, hid)]
     while rng.random() < 0.2:
-        names.append(rng.choice(["ul", "ol", "div", "span", "code", "kbd"]) if rng.random() < 0.7 else ident(rng, hostile))
+        names.append(rng.choice(["ul", "ol", "div", "span", "code", "kbd"]) if (rng.random() < 0.7 or hid == 0) else ident(rng, hid))
     events = []
     for _ in range(rng.choice([0, 0, 0, 1, 1, 2, 3])):
         if rng.random() < 0.55:
             events.append(["cls", rng.choice(["a", "b", "note", "tip"]) if rng.random() > hostile else ident(rng, hostile)])
         else:
-            events.append(["attr", rng.choice(["class", "id", "title", "lang", "data-x", "style"]) if rng.random() > hostile else ident(rng, hostile), string(rng, hostile)])
+            events.append(["attr", rng.choice(["class", "id", "title", "lang", "data-x", "style"]) if rng.random() > hid else ident(rng, hid), string(rng, hostile)])
     e = {"names": names, "events": events, "fresh": rng.random() < 0.3, "sep": None}
     if allow_sep and rng.random() < 0.15:
         e["sep"] = string(rng, hostile)
     return e
 
 
-def gen_path(rng, hostile=0.3, allow_sep=True, allow_bang=True, maxlen=4):
+def gen_path(rng, hostile=0.3, allow_sep=True, allow_bang=True, maxlen=4, hid=None):
     if allow_bang and rng.random() < 0.08:
         return "ignore"
     n = rng.choice([0, 1, 1, 1, 2, 2, 3, maxlen])
-    return [gen_element(rng, hostile, allow_sep) for _ in range(n)]
+    return [gen_element(rng, hostile, allow_sep, hid) for _ in range(n)]
 
 
-def gen_mapping(rng, pools=None, hostile=0.3, allow_sep=True, allow_bang=True):
-    return {"m": gen_matcher(rng, pools, hostile), "p": gen_path(rng, hostile, allow_sep, allow_bang)}
+def gen_mapping(rng, pools=None, hostile=0.3, allow_sep=True, allow_bang=True, hid=None):
+    return {"m": gen_matcher(rng, pools, hostile, hid), "p": gen_path(rng, hostile, allow_sep, allow_bang, hid=hid)}
 
 
 def ws(rng, at_least_one=False, line_edge=False):
@@ -301,17 +303,17 @@ def mutate(rng, line):
     return "".join(s)
 
 
-def style_map_text(rng, pools=None, n=None, hostile=0.2, allow_sep=False, allow_bang=True, junk=0.1):
+def style_map_text(rng, pools=None, n=None, hostile=0.2, allow_sep=False, allow_bang=True, junk=0.1, hid=None):
     lines = []
     for _ in range(n if n is not None else rng.randint(0, 6)):
         r = rng.random()
         if r < junk:
-            lines.append(junk_line(rng) if rng.random() < 0.5 else mutate(rng, print_mapping(gen_mapping(rng, pools, hostile, allow_sep, allow_bang), rng)))
+            lines.append(junk_line(rng) if rng.random() < 0.5 else mutate(rng, print_mapping(gen_mapping(rng, pools, hostile, allow_sep, allow_bang, hid), rng)))
         elif r < junk + 0.08:
             lines.append(rng.choice(["", "   ", "# comment", "  # p => h1", "#"]))
         else:
-            mp = gen_mapping(rng, pools, hostile, allow_sep, allow_bang)
+            mp = gen_mapping(rng, pools, hostile, allow_sep, allow_bang, hid)
             while not expressible(mp):
-                mp = gen_mapping(rng, pools, hostile, allow_sep, allow_bang)
+                mp = gen_mapping(rng, pools, hostile, allow_sep, allow_bang, hid)
             lines.append(print_mapping(mp, rng))
     return "\n".join(lines)
